@@ -1,7 +1,7 @@
 (** Property C07 — 1-D MOC serialisation round-trips.  Statements only. *)
 From Coq Require Import List NArith Permutation Sorted.
 From MOC.Base Require Import RangeSet.
-From MOC.Model Require Import Qty Query Build Repr Serial CellsSM Adapters AsciiCodec AsciiProofs AsciiStreamProofs AsciiMoc.
+From MOC.Model Require Import Qty Query Build Repr Serial CellsSM Adapters AsciiCodec AsciiProofs AsciiStreamProofs AsciiMoc FitsCodec FitsProofs.
 Import ListNotations.
 Open Scope N_scope.
 
@@ -103,6 +103,27 @@ Theorem C07_ascii_stream_moc_roundtrip : forall q w d l cells ul,
   ranges_of_elems q w (elems_of_cells cells) = l.
 Proof. exact ascii_stream_cells_roundtrip. Qed.
 
+(** ---- FITS, whole file, byte level (Model/FitsCodec.v: ranges_to_fits_ivoa / from_fits_ivoa as written) ---- *)
+
+(** writing then reading: the reader takes the range branch of the right quantity and width and returns
+    the depth and the ranges, for every quantity, width, depth below 256 and range list fitting the width *)
+Theorem C07_fits_file_roundtrip : forall q w d l, okw w -> d < 256 -> InWidth (N.to_nat (w / 8)) l ->
+  2 * N.of_nat (List.length l) < 2 ^ 64 ->
+  fits_read (fits_write q w d l) = FOk (leaf_of q) w d 0 (DRanges l).
+Proof. exact fits_file_roundtrip. Qed.
+
+(** structure: two header blocks, the rows, the padding; a whole number of 2880-byte blocks *)
+Theorem C07_fits_file_blocks : forall q w d l, okw w -> d < 256 ->
+  N.of_nat (List.length (fits_write q w d l)) mod 2880 = 0 /\
+  N.of_nat (List.length (fits_write q w d l)) =
+    2 * 2880 + N.of_nat (List.length (encode_rows (N.to_nat (w / 8)) l)) + fits_pad (N.of_nat (List.length (encode_rows (N.to_nat (w / 8)) l))).
+Proof. exact fits_write_blocks. Qed.
+
+(** the NAXIS2 card: any row count below 2^64 is read back *)
+Theorem C07_fits_naxis2_card : forall n, n < 2 ^ 64 ->
+  check_kw_uint 64 (mand_record naxis2_kw n) naxis2_expected = Datatypes.inr n.
+Proof. exact naxis2_card_named. Qed.
+
 Example C07_nonvacuous :
   encode_rows 2 [(1, 258); (1024, 12288)] = [0; 1; 1; 2; 4; 0; 48; 0] /\
   decode_rows 2 2 [0; 1; 1; 2; 4; 0; 48; 0] = [(1, 258); (1024, 12288)] /\
@@ -139,3 +160,6 @@ Print Assumptions C07_ascii_cells_are_normal.
 Print Assumptions C07_ascii_stream_number_roundtrip.
 Print Assumptions C07_ascii_stream_roundtrip.
 Print Assumptions C07_ascii_stream_moc_roundtrip.
+Print Assumptions C07_fits_file_roundtrip.
+Print Assumptions C07_fits_file_blocks.
+Print Assumptions C07_fits_naxis2_card.
